@@ -195,7 +195,12 @@ func RunC06(c *Ctx) {
 		}
 		one(gs.S.Entry, gs.Text)
 	})
-	nearMissWorkload(c, func(entry, input string) { CheckC06(c, entry, input) })
+	nearMissWorkload(c, func(entry, input string) {
+		if len(input) <= 1200 { // every node costs a re-parse of its substring and of the spliced text
+			CheckC06(c, entry, input)
+		}
+	})
+	operandMatrix(c, func(entry, input string) { CheckC06(c, entry, input) })
 	// accepted token mutants: shapes no author wrote
 	errorWorkload(c, c.Pick(40_000, 800_000), func(entry, input string) {
 		if entry == "lex" || entry == "split" || len(input) > 4000 {
